@@ -424,7 +424,7 @@ impl Prop for C15 {
         "C15"
     }
     fn rule(&self) -> &'static str {
-        "generated expressions of 1-10 operations (nested entry values to depth 2) over every write::Expression builder: 34 operand-free opcodes, op_addr, constants around 31/32 and the LEB128 size steps, registers 30..33/127/128/65535, pick 0/1/2/3/255, deref variants, typed operations referring to entries, op_skip/op_bra with set_target forward/backward/to the end, op_call, op_call_ref/op_variable_value/op_implicit_pointer with in-unit and cross-unit targets before and after the referring entry, implicit values of 0..40000 bytes, pieces, wasm locations; versions 2-5 (DW_OP vs DW_OP_GNU opcodes, v2 reference sizes) x 32/64-bit x address size 4/8 x byte order; placed in a DIE attribute, in a location list (pre-v5 and v5) and in a CFI expression. Oracle: (1) the emitted bytes decode (gimli's operation iterator, itself checked in C07) to the built operations up to the documented equivalent encodings, every branch lands on the byte offset of the intended operation, every entry reference resolves through the read-back forest to the intended identity marker; (2) the container's length prefix is consistent (the enclosing forest/list/CFI parses back intact) and the writer's size-prediction assertions hold (dev profile); (3) the emitted bytes and the harness's own canonical encoding of the built list evaluate to the same result on the harness's stack machine. Unresolvable forward references and references in CFI must be refused. Non-trivial = an entry reference, or a branch spanning a variable-length operation; distinct by choice string."
+        "generated expressions of 1-10 operations (nested entry values to depth 2) over every write::Expression builder: 34 operand-free opcodes, op_addr, constants around 31/32 and the LEB128 size steps, registers 30..33/127/128/65535, pick 0/1/2/3/255, deref variants, typed operations referring to entries, op_skip/op_bra with set_target forward/backward/to the end, op_call, op_call_ref/op_variable_value/op_implicit_pointer with in-unit and cross-unit targets before and after the referring entry, implicit values of 0..40000 bytes, pieces, wasm locations; versions 2-5 (DW_OP vs DW_OP_GNU opcodes, v2 reference sizes) x 32/64-bit x address size 4/8 x byte order; placed in a DIE attribute, in a location list (pre-v5 and v5) and in a CFI expression. Oracle: (1) the emitted bytes decode (gimli's operation iterator, itself checked in C07) to the built operations up to the documented equivalent encodings, every branch lands on the byte offset of the intended operation, every entry reference resolves through the read-back forest to the intended identity marker; (2) the container's length prefix is consistent (the enclosing forest/list/CFI parses back intact) and the writer's size-prediction assertions hold (dev profile); (3) the emitted bytes and the harness's own canonical encoding of the built list evaluate to the same result on the harness's stack machine. Unresolvable forward references and references in CFI must be refused. Non-trivial = an entry reference, or a branch spanning a variable-length operation; distinct by choice string. Later additions: the expression in the second unit, behind a first unit large enough that unit offsets and section offsets differ in LEB128 length."
     }
     fn assumptions(&self) -> Vec<&'static str> {
         vec![
